@@ -21,10 +21,10 @@ DIR = "/vf/storage"
 
 
 class Writer(multiprocessing.Process):
-    def __init__(self, st, names, nwrites, G):
+    def __init__(self, st, first, nwrites, G):
         super().__init__()
         self.st = st
-        self.names = names
+        self.first = first  # number of this writer's first write among all writes of the scenario
         self.nwrites = nwrites
         self.G = G
 
@@ -32,9 +32,9 @@ class Writer(multiprocessing.Process):
         v_role(self._vf_name)
         fresh_process_state(self.st)
         if self.nwrites >= 1:
-            one_write(self.st, self.names[0], self.G)
+            one_write(self.st, self.first, self.G)
         if self.nwrites >= 2:
-            one_write(self.st, self.names[1], self.G)
+            one_write(self.st, self.first + 1, self.G)
         self.st.close()
 
 
@@ -62,8 +62,32 @@ def fresh_process_state(st):
     st._opened_files_for_reading = []
 
 
-def one_write(st, name, G):
-    g = v_param(name, 0, G - 1)
+def write_id(j, G):
+    """identifier of the j-th write of the scenario: arbitrary, but pairwise distinct (storing twice is checked separately).
+    Write 0 takes any id; write 1 any other id (offset parameter, wrapped); write 2 any id different from both."""
+    a = v_param("w_id0", 0, G - 1)
+    if j == 0:
+        return a
+    b = a + 1 + v_param("w_off1", 0, G - 2)
+    if b >= G:
+        b = b - G
+    if j == 1:
+        return b
+    c = v_param("w_skip2", 0, G - 3)
+    lo = a
+    hi = b
+    if b < a:
+        lo = b
+        hi = a
+    if c >= lo:
+        c = c + 1
+    if c >= hi:
+        c = c + 1
+    return c
+
+
+def one_write(st, j, G):
+    g = write_id(j, G)
     st[g] = v_text(g)  # the text stored under identifier g (model: the tag g)
 
 
@@ -74,6 +98,8 @@ def one_concurrent_read(st, name, G):
         v_assert(r == v_text(g), "concurrent-read-returns-exactly-the-text-stored-under-the-id")
     except IndexError:
         pass  # nothing stored under g (yet): allowed while the write is in flight
+    except Exception:
+        v_assert(False, "concurrent-read-raises-something-other-than-IndexError")
 
 
 def expect_stored(st, g):
@@ -92,19 +118,15 @@ def expect_absent(st, g):
         pass
 
 
-def scenario_storage(st, w1, w2, rd, total, G, WN, inspect=True):
-    # identifiers of all writes are pairwise distinct (storing twice is checked separately below)
-    a = v_param(WN[0], 0, G - 1)
+def scenario_storage(st, w1, w2, rd, total, G, inspect=True):
+    # identifiers of all writes are pairwise distinct by construction (write_id)
+    a = write_id(0, G)
     b = a
     c = a
     if total >= 2:
-        b = v_param(WN[1], 0, G - 1)
-        if a == b:
-            return
+        b = write_id(1, G)
     if total >= 3:
-        c = v_param(WN[2], 0, G - 1)
-        if a == c or b == c:
-            return
+        c = write_id(2, G)
     fresh_process_state(st)
     w1.start()
     if w2 is not None:
@@ -156,10 +178,6 @@ def scenario_storage(st, w1, w2, rd, total, G, WN, inspect=True):
     st.close()
 
 
-def names_of(k):
-    return tuple("w%d_%d" % (k, j) for j in range(2))
-
-
 def build(cfg, ctx):
     """The real constructor runs with the shared primitives of ctx in place of Manager()/Value/RLock."""
     class MP:
@@ -196,11 +214,11 @@ def make(cfg, ctx, mode, ctrl=None, restore=None):
         c._opened_files_for_reading = []
         return c
 
-    w1 = Writer(fork_copy(), names_of(1), CInt(w1n), CInt(G))
+    w1 = Writer(fork_copy(), CInt(0), CInt(w1n), CInt(G))
     w1._vf_name = "writer1"
     w2 = None
     if w2n:
-        w2 = Writer(fork_copy(), names_of(2), CInt(w2n), CInt(G))
+        w2 = Writer(fork_copy(), CInt(w1n), CInt(w2n), CInt(G))
         w2._vf_name = "writer2"
     rd = None
     if reads:
@@ -208,8 +226,7 @@ def make(cfg, ctx, mode, ctrl=None, restore=None):
         rd._vf_name = "reader"
     info = {"list_caps": {("scenario_storage", "out"): G, ("scenario_storage", "exp"): 3}, "default_cap": max(G, NF, 3), "dict_keys": G + 1,
             "storage_files": D, "shared_prims": ["index", "paths", "cnt", "waiting", "lock", "D"]}
-    wn = names_of(1)[:w1n] + names_of(2)[:w2n]
-    return {"scenario": scenario_storage, "args": (st, w1, w2, rd, CInt(total), CInt(G), wn, bool(cfg.get("inspect", True))), "info": info}
+    return {"scenario": scenario_storage, "args": (st, w1, w2, rd, CInt(total), CInt(G), bool(cfg.get("inspect", True))), "info": info}
 
 
 # ---------------------------------------------------------------------------------------------------- replay
@@ -294,15 +311,29 @@ def custom_replay(spec):
             self.__exit__()
 
     class GFile:
+        """print(x, file=f) calls write(text) and write(newline); the model's step is "D.write" (line buffered) or, when a
+        flush follows at once (flush=True), "D.print". The decision is taken at the next call that reaches a gate."""
+
         def __init__(self, real):
             self._real = real
             self._buf = []
+            self._line_done = False
+
+        def _settle(self):
+            if self._line_done:  # an unflushed print: its step comes before whatever this process does next
+                self._line_done = False
+                fw.gated("D.write", self._real.write, "".join(self._buf))
+                self._buf.clear()
 
         def tell(self):
+            self._settle()
             return fw.gated("D.tell", self._real.tell)
 
         def write(self, s):
-            self._buf.append(s)  # print() writes the text and the newline separately; the step is the flush
+            self._buf.append(s)
+            if s.endswith("\n"):
+                self._line_done = True
+                pending_files.append(self)
             return len(s)
 
         def flush(self):
@@ -310,24 +341,35 @@ def custom_replay(spec):
                 self._real.write("".join(self._buf))
                 self._buf.clear()
                 self._real.flush()
-            if self._buf:
+            if self._line_done:
+                self._line_done = False
                 fw.gated("D.print", do)
             else:
-                self._real.flush()
+                fw.gated("D.flush", do)
 
         def seek(self, off):
+            self._settle()
             return fw.gated("D.seek", self._real.seek, off)
 
         def readline(self):
+            self._settle()
             return fw.gated("D.readline", self._real.readline)
 
         def close(self):
-            def do():
-                if self._buf:
-                    self._real.write("".join(self._buf))
-                    self._buf.clear()
-                self._real.close()
-            return fw.gated("D.close", do)
+            self._settle()
+            return fw.gated("D.close", self._real.close)
+
+    pending_files = []
+    plain_gate = fw.gate
+
+    def gate_after_pending_prints(op):
+        while pending_files:
+            pf = pending_files.pop()
+            if pf._line_done and op != "D.print" and not op.startswith("D.flush"):
+                pf._settle()
+        plain_gate(op)
+
+    fw.gate = gate_after_pending_prints
 
     real_open = open
 
@@ -370,21 +412,20 @@ def custom_replay(spec):
             proc.run = run
             return proc
 
-        w1 = Writer(fork_copy(), names_of(1), w1n, G)
+        w1 = Writer(fork_copy(), 0, w1n, G)
         w1._vf_name = "writer1"
         wrap_run(w1)
         w2 = rd = None
         if w2n:
-            w2 = Writer(fork_copy(), names_of(2), w2n, G)
+            w2 = Writer(fork_copy(), w1n, w2n, G)
             w2._vf_name = "writer2"
             wrap_run(w2)
         if reads:
             rd = Reader(fork_copy(), ("r_0", "r_1"), reads, G)
             rd._vf_name = "reader"
             wrap_run(rd)
-        wn = names_of(1)[:w1n] + names_of(2)[:w2n]
         try:
-            scenario_storage(st, w1, w2, rd, total, G, wn, bool(cfg.get("inspect", True)))
+            scenario_storage(st, w1, w2, rd, total, G, bool(cfg.get("inspect", True)))
         except BaseException as e:  # noqa
             fw.send("UNCAUGHT main %s" % type(e).__name__)
         finally:
